@@ -131,9 +131,16 @@ type Exec struct {
 	epochN           int
 	caseTag          string
 	curUse           *Contract
+	globalsSeen      map[string]*ssa.Global
+	noOpaqueDispatch int
+	pendingRows      []modEntry
 }
 
-type modEntry struct{ addr *Addr }
+type modEntry struct {
+	addr  *Addr
+	rowOf *Term // whole backing row of this array reference ...
+	comp  string // ... in this element component
+}
 
 func NewExec(eng *Engine) *Exec {
 	return &Exec{w: NewWorld(), prog: eng.prog, eng: eng, compSort: map[string]Sort{},
@@ -234,7 +241,12 @@ func (x *Exec) elemComp(t types.Type) (string, Sort) {
 }
 func (x *Exec) globComp(g *ssa.Global) (string, Sort) {
 	t := g.Type().(*types.Pointer).Elem()
-	return "G_" + sanitize(g.Pkg.Pkg.Name()+"."+g.Name()), x.w.sortOf(t)
+	n := "G_" + sanitize(g.Pkg.Pkg.Name()+"."+g.Name())
+	if x.globalsSeen == nil {
+		x.globalsSeen = map[string]*ssa.Global{}
+	}
+	x.globalsSeen[n] = g
+	return n, x.w.sortOf(t)
 }
 func (x *Exec) mapComps(mt *types.Map) (dom, val, ln string, ks, vs Sort) {
 	ks, vs = x.w.sortOf(mt.Key()), x.w.sortOf(mt.Elem())
